@@ -432,6 +432,8 @@ class Repo:
                 parts = parts[:-1]
             name = ".".join(parts)
             self.modules[name] = Module(self, name, p, is_pkg)
+        self._inline_named_constants()
+        self._positional_calls()
         self._short_index: Dict[str, List[FunctionInfo]] = {}
         for fi in self.functions():
             self._short_index.setdefault(fi.short, []).append(fi)
@@ -440,6 +442,78 @@ class Repo:
             for c in m.classes.values():
                 self._class_index.setdefault(c.name, []).append(c)
         self.dynamic_inventory = self._dynamic_inventory()
+
+    def _inline_named_constants(self):
+        """module-level names bound ONCE to a numeric constant expression and never re-bound (no `global` in any function
+        of their module) are read as their value inside functions -- `HALF_PI`, `ONE_THIRD`, `MIN_POLYGON_POINTS`, also when
+        imported from another module of the package.  (The tolerance globals are re-bound by their setters and stay names.)"""
+        from .astutil_consts import const_value
+        consts: Dict[Tuple[str, str], object] = {}
+        for m in self.modules.values():
+            rebound = set()
+            for n in ast.walk(m.tree):
+                if isinstance(n, ast.Global):
+                    rebound |= set(n.names)
+            for name, vals in m.assigns.items():
+                if len(vals) == 1 and name not in rebound and name not in m.functions and name not in m.classes:
+                    v = const_value(vals[0])
+                    if v is not None:
+                        consts[(m.name, name)] = v
+        if not consts:
+            return
+
+        repo = self
+
+        class R(ast.NodeTransformer):
+            def __init__(self, fi):
+                self.fi = fi
+                self.locals = set(fi.params) | {x.id for x in ast.walk(fi.node) if isinstance(x, ast.Name) and isinstance(x.ctx, ast.Store)}
+
+            def visit_Name(self, n):
+                if isinstance(n.ctx, ast.Load) and n.id not in self.locals:
+                    b = self.fi.resolve(n.id)
+                    if b is not None and b.kind == "var":
+                        key = (b.target[0].name, b.target[1])
+                        if key in consts:
+                            return ast.copy_location(ast.Constant(value=consts[key]), n)
+                return n
+
+        for fi in list(self.functions()):
+            for i, st in enumerate(fi.node.body):
+                fi.node.body[i] = R(fi).visit(st)
+            ast.fix_missing_locations(fi.node)
+
+    def _positional_calls(self):
+        """f(a, k2=y, k1=x) of a function / class of the package whose parameters are known  ->  f(a, x, y): keyword
+        arguments that can be placed without a gap become positional (evaluation order of the arguments is not part of
+        any property here; the rules then see one spelling of a call)"""
+        for fi in list(self.functions()):
+            for c in ast.walk(fi.node):
+                if not (isinstance(c, ast.Call) and c.keywords and isinstance(c.func, ast.Name)):
+                    continue
+                if any(k.arg is None for k in c.keywords) or any(isinstance(a, ast.Starred) for a in c.args):
+                    continue
+                b = fi.resolve(c.func.id)
+                params = None
+                if b is not None and b.kind == "func" and b.target.vararg is None:
+                    params = list(b.target.params)
+                    if b.target.cls is not None:
+                        params = params[1:]  # cls of a classmethod alias (Circle = ConvexPolygon.Circle)
+                elif b is not None and b.kind == "class":
+                    init = b.target.lookup("__init__")
+                    if init is not None and init.vararg is None:
+                        params = list(init.params[1:])
+                if not params:
+                    continue
+                kw = {k.arg: k.value for k in c.keywords}
+                new_args = list(c.args)
+                i = len(new_args)
+                while i < len(params) and params[i] in kw:
+                    new_args.append(kw.pop(params[i]))
+                    i += 1
+                if len(new_args) != len(c.args):
+                    c.args = new_args
+                    c.keywords = [k for k in c.keywords if k.arg in kw]
 
     # ---- enumeration
     def functions(self, include_visualization: bool = True) -> Iterator[FunctionInfo]:
